@@ -18,6 +18,7 @@ import (
 // character returns a value not known to be false.
 type charClass struct {
 	Accept       map[int]bool
+	AcceptMid    map[int]bool // accepted as a later character behind an ordinary first one ('a')
 	EmptyAccept  bool
 	Extractions  int
 	ByteWise     bool
@@ -279,6 +280,57 @@ func classOf(p *core.Prog, fn *ssa.Function) *charClass {
 			}
 		}
 		return
+	}
+	// run2: the first character looked at is `first`, every later one is ch (a character in the
+	// middle of a token: flags such as "at the start of a token" are then false where the code
+	// makes them so); the character compared is the one of the latest extraction
+	run2 := func(first, ch int) bool {
+		fl := &core.Flow{Fn: fn, Entry: core.StateSet(0).Add(0), Tags: true,
+			Inline: func(cal *ssa.Function) bool { return inUnit[cal] && cal != fn }}
+		fl.Transfer = func(in ssa.Instruction, s int) core.StateSet {
+			if extraction[in] {
+				if s == 0 {
+					return core.StateSet(0).Add(1)
+				}
+				return core.StateSet(0).Add(2)
+			}
+			return core.StateSet(0).Add(s)
+		}
+		fl.Branch = func(iff *ssa.If, succ int, st int) (int, bool) {
+			cond, neg := iff.Cond, false
+			for {
+				u, ok := cond.(*ssa.UnOp)
+				if !ok || u.Op != token.NOT {
+					break
+				}
+				cond, neg = u.X, !neg
+			}
+			cur := first
+			if st == 2 {
+				cur = ch
+			}
+			ev := oracle(cur)(cond)
+			if ev == 0 {
+				return st, true
+			}
+			truth := ev == 1
+			if neg {
+				truth = !truth
+			}
+			return st, truth == (succ == 0)
+		}
+		res := fl.Run()
+		for _, ret := range core.Returns(fn) {
+			rf := res.RetFlag[ret]
+			if (rf[0] | rf[1]).Has(2) {
+				return true
+			}
+		}
+		return false
+	}
+	cc.AcceptMid = map[int]bool{}
+	for _, v := range []int{'*', '>', 'b'} {
+		cc.AcceptMid[v] = run2('a', v)
 	}
 	_, cc.EmptyAccept = run(-1)
 	for _, v := range charReps {
